@@ -236,7 +236,9 @@ def get_model(
         assoc_name = lang_classes_factory.get_association_by_signature(
             assoc.name,
             assoc.left_field.asset.name,
-            assoc.right_field.asset.name
+            assoc.right_field.asset.name,
+            assoc.left_field.fieldname,
+            assoc.right_field.fieldname
         )
 
         if not assoc_name:
